@@ -190,6 +190,13 @@ func (c *Client) Close() {
 	if !c.closed {
 		c.closed = true
 		c.hist.Add("%s: <close>", c.Name)
+
+		// Reset instead of a graceful close: thousands of short-lived connections would otherwise pile up in TIME_WAIT
+		// and exhaust the ephemeral ports of the sandbox.
+		if tcp, ok := c.conn.(*net.TCPConn); ok {
+			_ = tcp.SetLinger(0)
+		}
+
 		_ = c.conn.Close()
 	}
 }
